@@ -10,11 +10,11 @@ OPQ_MODELS = {
     'source': {'__getitem__': 'method:opq:ndarray', 'dtype': 'opq:sdtype', '__isinstance__': {}},
     'sarray': {'dtype': 'opq:sdtype', 'shape0': 'int:nat', '__getitem__': 'method:opq:chunk',      # caller's structured array: slicing = view
                '__isinstance__': {'np.ndarray': True}},
-    'ndarray': {'dtype': 'opq:dtype', 'ndim': 'int:nat', 'size': 'int:nat', 'shape0': 'int:nat', 'shape_last': 'int:nat', '__getitem__': 'method:opq:ndarray',
+    'ndarray': {'dtype': 'opq:dtype', 'byteswap': 'method:opq:ndarray', 'view': 'method:opq:ndarray', 'ndim': 'int:nat', 'size': 'int:nat', 'shape0': 'int:nat', 'shape_last': 'int:nat', '__getitem__': 'method:opq:ndarray',
                 'min': 'method:opq:scalar', 'max': 'method:opq:scalar', '__isinstance__': {'np.ndarray': True}},
     'slot': {'byteswap': 'method:opq:slot', 'tobytes': 'method:bytes', '__isinstance__': {'np.ndarray': None}},
     'sdtype': {'names': 'opq:names', 'newbyteorder': 'method:opq:sdtype', '__isinstance__': {'np.dtype': True}},
-    'dtype': {'name': 'str', '__isinstance__': {'np.dtype': True}},
+    'dtype': {'name': 'str', 'isnative': 'bool', 'newbyteorder': 'method:opq:dtype', '__isinstance__': {'np.dtype': True}},
     'rowgen': {'__isinstance__': {}},
     'row': {'__isinstance__': {}},
 }
@@ -184,7 +184,7 @@ for _known in ((), ('K0',), ('K1',), ('K0', 'K1')):
     _kd = 'dict{' + ','.join(f'{k}:opq:dtype' for k in _known) + '}'
     _bad = ' or '.join(f"source_missing(data_object, mapping['{k}'])" for k in ('K0', 'K1'))
     CONTRACTS[f'SourceDataWrapper.determine_dtypes[2-channels,known={"+".join(_known) or "none"}]'] = dict(
-        target='SourceDataWrapper.determine_dtypes', props=['C08', 'C03', 'C12'],
+        target='SourceDataWrapper.determine_dtypes', props=['C08', 'C03', 'C12', 'C14', 'C11'],
         params={'data_object': 'opq:source', 'mapping': M2, 'known_dtypes': _kd}, returns='opq:sdtype',
         may_raise=['ValueError', 'RuntimeError'],
         ensures=[(f'field-{k}-has-the-known-dtype-else-the-source-dtype-in-native-byte-order',
